@@ -3,6 +3,7 @@ import Apko.Proofs.Lemmas.Accounts
 import Apko.Proofs.Lemmas.AccountsExt
 import Apko.Proofs.Lemmas.AccountsOpen
 import Apko.Proofs.Lemmas.AccountsWalk
+import Apko.Proofs.Lemmas.AccountsHomes
 import Apko.Generated.Accounts
 /-! C13 — declared accounts and path mutations are realized in the image
 (theorems over `Model/Accounts.lean`, which composes `Model/FS.lean` and `Model/Formats.lean`) -/
@@ -286,6 +287,59 @@ example :
     ok (homePrefix ++ ['a', 'p', 'p']) = true ∧ ok ['/', 'v', '/', 'l', '/', 'x', '/', 'y'] = true ∧
     ok ['/', 'o', 'p', 't', '/', 'h', '/'] = true ∧ ok ['/', 'a', '/', '.', '/', 'b'] = true ∧ ok ['/', 'x'] = true := by
   decide
+
+/-- **home_created (final state)**: from a well-formed tree, after a successful `mutateAccounts`
+every passwd entry `u` (old or configured, with an ordinary or `/dev/null` home) is `HomeDone`
+with respect to the state `fsk` its own iteration of the loop started from and the **final** state:
+`/dev/null` — nothing; home present in `fsk` — it resolves to the same directory at the end with
+mode and owner exactly as in `fsk` (untouched); home absent in `fsk` — at the end it resolves to a
+directory created by that iteration, with mode exactly `dir|0700` and owner `u.uid:u.gid`.
+Nothing that existed before the call changed mode, owner or kind (`EF`). -/
+theorem homes_final (c : Cfg) (hc : c.posix = false) (fs fs' : FS) (cfg : AccCfg) (r : Text)
+    (hi : FS.Inv fs) (hb : DirBit fs) (h : mutateAccounts c fs cfg = (fs', none, r)) :
+    ∃ fs1 oldU, EF fs fs1 ∧
+      ((∀ u ∈ oldU ++ cfg.users.map specUser, u.home = devNull ∨ Ordinary (clean u.home)) →
+        EF fs fs' ∧ HomesDone c fs1 fs' (oldU ++ cfg.users.map specUser)) := by
+  obtain ⟨fsg, fs1, t, oldU, fs2, hg, _, h1, _, h3, h4, _⟩ := accounts_append c fs fs' cfg r h
+  have wg : WF fsg := by have := wf_groupsPart c fs cfg.groups ⟨hi, hb⟩; rw [hg] at this; exact this
+  have w1 : WF fs1 := by have := wf_readOrCreate c fsg passwdPath wg; rw [h1] at this; exact this
+  have w2 : WF fs2 := by
+    have := wf_seqM_home c (oldU ++ cfg.users.map specUser) fs1 w1; rw [h3] at this; exact this
+  -- the group goroutine and the read-or-create only extend the graph
+  have efg : EF fs fsg := by
+    have : EF fs (groupsPart c fs cfg.groups).1 := by
+      unfold groupsPart
+      split
+      · exact EF.refl fs
+      · have e1 : EF fs (readOrCreate c fs groupPath).1 := by
+          unfold readOrCreate
+          have := openCore_ef c fs groupPath flagsReadOrCreate readOrCreatePerm hi
+          split <;> (rename_i heq; simp only [heq] at this; exact this)
+        have hw1 := wf_readOrCreate c fs groupPath ⟨hi, hb⟩
+        split
+        · rename_i heq; simp only [heq] at e1; exact e1
+        · rename_i fsx tx heq
+          simp only [heq] at e1 hw1
+          split
+          · exact e1
+          · exact e1.trans (writeBack_ef c fsx groupPath _ hw1.1)
+    rw [hg] at this; exact this
+  have ef1 : EF fsg fs1 := by
+    have : EF fsg (readOrCreate c fsg passwdPath).1 := by
+      unfold readOrCreate
+      have := openCore_ef c fsg passwdPath flagsReadOrCreate readOrCreatePerm wg.1
+      split <;> (rename_i heq; simp only [heq] at this; exact this)
+    rw [h1] at this; exact this
+  have efw : EF fs2 fs' := by have := writeBack_ef c fs2 passwdPath (writeUsers (oldU ++ cfg.users.map specUser)) w2.1; rw [h4] at this; exact this
+  refine ⟨fs1, oldU, efg.trans ef1, ?_⟩
+  intro hord
+  obtain ⟨efl, hdone⟩ := homes_loop c hc _ fs1 fs2 w1 hord h3
+  exact ⟨((efg.trans ef1).trans efl).trans efw, HomesDone_mono c hc fs2 fs' w2.1 efw _ fs1 hdone⟩
+
+/-- the side condition `Ordinary` holds for ordinary homes -/
+example : Ordinary (clean (homePrefix ++ ['a', 'p', 'p'])) ∧ Ordinary (clean ['/', 'o', 'p', 't', '/', 'h', '/']) ∧
+    Ordinary (clean ['/', 'v', '/', 'l', '/', 'x']) := by
+  refine ⟨⟨?_, ?_, ?_, ?_⟩, ⟨?_, ?_, ?_, ?_⟩, ⟨?_, ?_, ?_, ?_⟩⟩ <;> decide
 
 /-! ## path mutations -/
 
